@@ -33,6 +33,12 @@ CHECKS = {
     design_ref="DESIGN.md section 5 C07",
     note="Trusted: Coq kernel + VM; hand-written model tied by correspondence on call histories; mutation-freedom observed by snapshots (exploration strength), not proved.",
     technique="Coq proofs of substitution laws + correspondence and heap snapshots over call histories"),
+ "C06": dict(
+    category="proof",
+    text="is_subtype / is_assignable / get_supertypes of src/ir/types.py and the per-language built-in tables (regenerated from the source on every run into Generated/Builtins.v) are modelled over nominal terms + class table (Types/Subtype.v). The reference is the syntax-directed declarative relation SubA (Types/Decl.v: hierarchy, declaration-site variance, use-site projections read existentially and opened by capture conversion, bounds) with an executable tri-state checker sub_ref proved sound for both answers (sub_ref_yes_sound, sub_ref_no_sound). Proved for all class tables and types: on the projection-free, variable-free fragment a True answer of the model is derivable (is_subtype_sound_pf) and a False answer is exact (is_subtype_complete_pf_partial, boxed types), hence definite answers coincide with the relation (is_subtype_exact_pf) and are reflexive and transitive (is_subtype_refl_pf, is_subtype_trans_pf, suba_trans_pf_partial via declaration-site variance validity); the bottom types are below everything. Unrestricted soundness is REFUTED by three machine-checked witnesses (nested projection, variance-conflicting projection, type variable left in the supertypes by perform_type_substitution's cond) -- recorded as known findings C06-F4/F9. Tie: correspondence of is_subtype/is_assignable with the model on random class tables with relation-directed and closure-directed pairs, and every implementation answer on well-formed types is judged by sub_ref in Coq (unsound / incomplete-on-ground verdicts, classified by shape so that only the two known shapes are suppressed).",
+    design_ref="DESIGN.md section 5 C06",
+    note="Trusted: Coq kernel + VM; hand-written model tied by correspondence; Generated/Builtins.v produced by introspection; soundness for types WITH use-site projections is not proved (it is false in general, see the refutations) -- there the check relies on sub_ref judging each explored pair.",
+    technique="Coq proofs (model vs declarative relation, reference checker soundness) + correspondence + proven-sound reference judging every explored pair"),
 }
 
 NOT_APPLICABLE = {
@@ -40,7 +46,7 @@ NOT_APPLICABLE = {
  "C13": "The property is about CPython's pickle applied to ~40 IR classes; a Coq model would be a model of pickle and the only tie to the code would be the round-trip test itself (DESIGN.md section 6).",
 }
 
-PENDING = ["C01","C03","C04","C05","C06","C08","C09","C10","C11","C12","C17","C18"]
+PENDING = ["C01","C03","C04","C05","C08","C09","C10","C11","C12","C17","C18"]
 
 def main():
     checks = []
